@@ -136,18 +136,23 @@ Theorem C07_acked_means_accepted : forall e S K G vs x l a0 d,
 Proof. exact acked_means_accepted. Qed.
 Print Assumptions C07_acked_means_accepted.
 
-(*    Whenever a step of A reports success (some OCallback id true among its outputs), it is
-      processing a datagram d it opens, and some pending datagram (s, t) named by d's ack fields is
-      index i of A, put on the wire as dA (an element of Net.wAB), and B has accepted dA. *)
-Theorem C07_success_means_accepted : forall e S K G vs x l a' o,
+(*    Whenever a step of A reports success for callback id (OCallback id true among its outputs), it
+      is processing a datagram d it opens; the callback object k that reports to id (cb_for: the
+      user callback itself, plain or wrapped by a RetrySender, or the collector of a fragmented
+      message) is registered in pending_callbacks for a pending datagram (s, t) that d's ack fields
+      name; that datagram is index i of A, was put on the wire as dA (an element of Net.wAB), and B
+      HAS ACCEPTED dA before this moment. *)
+Theorem C07_success_means_accepted : forall e S K G vs x l a' o id,
   0 <= e_max_payload e -> J S K G -> Inc (nA (g_net G)) -> wf2_run e G (vs ++ [(NA x, l)]) ->
   let G' := grun e G vs in
-  step e (nA (g_net G')) x = (a', o) -> (exists id, In (OCallback id true) o) ->
-  exists a0 d, pre_recv (nA (g_net G')) x = Some (a0, d) /\ opens a0 d = true /\ acked_accepted G' a0 d /\
-    exists s t i dA, In (s, t) (c_packs a0) /\ hdr_acks (h_ack (d_hdr d)) (h_ackbits (d_hdr d)) s = true /\
-      s = wire i /\ 1 <= i <= g_nA G' /\ In i (idx_acc (g_B G')) /\
-      In (i, dA) (g_AB G') /\ In dA (wAB (g_net G')) /\ h_seq (d_hdr dA) = s /\ In dA (g_accB G').
-Proof. exact success_means_accepted. Qed.
+  step e (nA (g_net G')) x = (a', o) -> In (OCallback id true) o ->
+  exists a0 d s t ks k i dA,
+    pre_recv (nA (g_net G')) x = Some (a0, d) /\ opens a0 d = true /\
+    In (s, t) (c_packs a0) /\ hdr_acks (h_ack (d_hdr d)) (h_ackbits (d_hdr d)) s = true /\
+    dget s (c_pcbs a0) = Some ks /\ In k ks /\ cb_for k id /\
+    s = wire i /\ 1 <= i <= g_nA G' /\ In i (idx_acc (g_B G')) /\
+    In (i, dA) (g_AB G') /\ In dA (wAB (g_net G')) /\ h_seq (d_hdr dA) = s /\ In dA (g_accB G').
+Proof. exact success_registered_accepted. Qed.
 Print Assumptions C07_success_means_accepted.
 
 (*    Short sessions: while A has consumed at most HALF + 1 = 32768 sequence numbers, (near) and
